@@ -183,6 +183,24 @@ def main():
     if searching and not args.replay:
         # a proof obligation broke: widen to the thorough generator with a time cap
         seconds, max_cases = max(seconds, 240), max(max_cases, 6000)
+    # anchored source differs from the committed baseline (tools/anchors.json): look harder.  Never an alarm by itself.
+    source_changed = {}
+    try:
+        sys.path.insert(0, os.path.join(VERIF, "tools"))
+        import fingerprint
+        anchored = set()
+        for line in open(os.path.join(VERIF, "properties.jsonl")):
+            pr = json.loads(line)
+            if pr["id"] == pid:
+                anchored = {os.path.basename(f) for f in pr.get("anchors", {}).get("files", [])}
+        source_changed = {m: q for m, q in fingerprint.changed_since_baseline().items() if m in anchored}
+    except Exception as e:  # noqa: BLE001  -- informational only
+        say(f"(fingerprint comparison skipped: {type(e).__name__}: {e})")
+    if source_changed and not args.replay and not searching:
+        n_fn = sum(len(q) for q in source_changed.values())
+        say(f"anchored source differs from the baseline in {n_fn} place(s) "
+            f"({', '.join(m + ':' + '/'.join(q[:3]) for m, q in source_changed.items())}): widening the search")
+        seconds, max_cases = int(seconds * 3.5), max_cases * 4
     res_path = os.path.join(VERIF, "replays", f".result-{pid}-{os.getpid()}.json")
     cmd = [PY, os.path.join(VERIF, "harness", "run.py"), pid, "--tier",
            "thorough" if searching else tier, "--seed", str(seed), "--seconds", str(seconds),
@@ -259,6 +277,7 @@ def main():
             "rule": res["rule"], "samples": res["samples"], "exhaustive": res["exhaustive"],
             "branch_histogram": res["hist"], "correspondence_mismatches": len(res["corr_mismatch"]),
             "known_findings_hit": sorted(seen_known), "tie": res.get("tie", "translator + correspondence"),
+            "anchored_source_changed_since_baseline": source_changed,
         },
         "assumptions": res.get("assumptions", []) + [
             "model = code only as far as the regenerated tables and the sampled correspondence show"],
